@@ -12,6 +12,8 @@
 #include <unistd.h>
 
 #include <algorithm>
+#include <deque>
+#include <functional>
 #include <climits>
 #include <chrono>
 #include <unordered_set>
@@ -162,12 +164,24 @@ void write_stats() {
   }
 }
 
+// cases that ran earlier in the same process and that the failing case needs (state the library keeps
+// process-wide: drop-in directory list, restrictions, last error location). Empty for almost every case.
+std::vector<std::vector<uint32_t>> g_prelude;
+
 void write_case(const std::string &path, const std::vector<uint32_t> &ch, const std::string &symptom,
-                const std::string &detail, const std::string &desc) {
+                const std::string &detail, const std::string &desc,
+                const std::vector<std::vector<uint32_t>> *prelude = nullptr) {
   std::string tmp = path + ".tmp";
   FILE *f = fopen(tmp.c_str(), "w");
   if (!f) return;
-  fprintf(f, "property=%s\nchoices=", g_prop.c_str());
+  fprintf(f, "property=%s\n", g_prop.c_str());
+  if (prelude)
+    for (auto &pc : *prelude) {
+      fprintf(f, "prelude=");
+      for (size_t i = 0; i < pc.size(); i++) fprintf(f, "%s%u", i ? "," : "", pc[i]);
+      fprintf(f, "\n");
+    }
+  fprintf(f, "choices=");
   for (size_t i = 0; i < ch.size(); i++) fprintf(f, "%s%u", i ? "," : "", ch[i]);
   fprintf(f, "\n");
   if (!symptom.empty()) fprintf(f, "symptom=%s\n", symptom.c_str());
@@ -186,24 +200,29 @@ void write_case(const std::string &path, const std::vector<uint32_t> &ch, const 
   rename(tmp.c_str(), path.c_str());
 }
 
-bool read_case(const std::string &path, std::vector<uint32_t> &ch) {
+bool read_case(const std::string &path, std::vector<uint32_t> &ch, std::vector<std::vector<uint32_t>> *prelude = nullptr) {
   FILE *f = fopen(path.c_str(), "r");
   if (!f) return false;
   char *line = nullptr;
   size_t cap = 0;
   bool ok = false;
+  auto numbers = [](char *p, std::vector<uint32_t> &out) {
+    while (*p && *p != '\n') {
+      char *e;
+      unsigned long v = strtoul(p, &e, 10);
+      if (e == p) break;
+      out.push_back((uint32_t)v);
+      p = e;
+      if (*p == ',') p++;
+    }
+  };
   while (getline(&line, &cap, f) > 0) {
     if (strncmp(line, "choices=", 8) == 0) {
       ok = true;
-      char *p = line + 8;
-      while (*p && *p != '\n') {
-        char *e;
-        unsigned long v = strtoul(p, &e, 10);
-        if (e == p) break;
-        ch.push_back((uint32_t)v);
-        p = e;
-        if (*p == ',') p++;
-      }
+      numbers(line + 8, ch);
+    } else if (prelude && strncmp(line, "prelude=", 8) == 0) {
+      prelude->emplace_back();
+      numbers(line + 8, prelude->back());
     }
   }
   free(line);
@@ -227,6 +246,16 @@ void on_alarm(int) {
 
 RunRes run_inproc(const std::vector<uint32_t> &ch) {
   RunRes r;
+  for (auto &pc : g_prelude) {
+    // earlier cases of the same process: run for their effect on process-wide state only
+    g_case.clear();
+    g_spans.clear();
+    Src ps(pc);
+    try {
+      g_h->run(ps);
+    } catch (const Fail &) {
+    }
+  }
   g_case.clear();
   g_spans.clear();
   Src s(ch);
@@ -363,6 +392,134 @@ RunRes run_forked(const std::vector<uint32_t> &ch) {
   return r;
 }
 
+// ---- shrinking of a choice sequence (rapidcheck's container shrinking is quadratic in the sequence length; this
+// one knows that only the consumed prefix matters, that 0 is the simplest choice and which spans of choices
+// belong together). `fails(cand, out)` evaluates a candidate; `accepted()` is called after every improvement.
+[[maybe_unused]] static void shrink_choices(std::vector<uint32_t> &ch, RunRes &r, std::string &desc, uint64_t &budget, bool use_spans,
+                           const std::function<RunRes(const std::vector<uint32_t> &)> &evaluate,
+                           const std::function<void()> &accepted) {
+  std::vector<std::pair<uint32_t, uint32_t>> spans;
+  if (use_spans) spans = g_spans;
+  auto still_fails = [&](const std::vector<uint32_t> &cand, RunRes &out) {
+    if (budget == 0) return false;
+    budget--;
+    RunRes rr = evaluate(cand);
+    if (rr.ok) return false;
+    out = rr;
+    desc = g_case.desc;
+    if (use_spans) spans = g_spans;
+    return true;
+  };
+  auto accept = [&](std::vector<uint32_t> &cur_ch, std::vector<uint32_t> &cand, RunRes &rr) {
+    cur_ch.swap(cand);
+    r = rr;
+    accepted();
+  };
+  auto without = [](const std::vector<uint32_t> &v, size_t a, size_t b) {
+    std::vector<uint32_t> c(v.begin(), v.begin() + a);
+    if (b < v.size()) c.insert(c.end(), v.begin() + b, v.end());
+    return c;
+  };
+  // pass 0: shortest failing prefix (heuristic bisection)
+  {
+    RunRes rr;
+    size_t lo = 0, hi = ch.size();
+    while (lo < hi && budget) {
+      size_t mid = (lo + hi) / 2;
+      std::vector<uint32_t> cand(ch.begin(), ch.begin() + mid);
+      if (still_fails(cand, rr)) {
+        hi = mid;
+        accept(ch, cand, rr);
+      } else
+        lo = mid + 1;
+    }
+  }
+  bool progress = true;
+  int rounds = 0;
+  while (progress && budget && rounds++ < 12) {
+    progress = false;
+    // pass 1: delete whole spans, last first, outer before inner
+    // (spans are refreshed by every failing run)
+    {
+      uint32_t cf = UINT32_MAX, cs = UINT32_MAX;  // cursor: spans ordered after it are still to be tried
+      for (;;) {
+        std::vector<std::pair<uint32_t, uint32_t>> sp = spans;
+        std::sort(sp.begin(), sp.end(), [](auto &x, auto &y) {
+          return x.first != y.first ? x.first > y.first : x.second > y.second;
+        });
+        bool tried = false;
+        for (auto &q : sp) {
+          bool after = q.first < cf || (q.first == cf && q.second < cs);
+          if (!after || q.second > ch.size() || q.second <= q.first) continue;
+          if (!budget) break;
+          tried = true;
+          std::vector<uint32_t> cand = without(ch, q.first, q.second);
+          RunRes rr;
+          if (still_fails(cand, rr)) {
+            accept(ch, cand, rr);
+            progress = true;
+            cf = q.first;
+            cs = 0;  // everything starting here or later has been handled
+          } else {
+            cf = q.first;
+            cs = q.second;
+          }
+          break;  // re-read spans (they may have changed)
+        }
+        if (!tried) break;
+      }
+    }
+    // pass 2: delete small chunks
+    for (size_t chunk : {8u, 4u, 2u, 1u}) {
+      size_t pos = ch.size();
+      while (pos >= chunk && budget) {
+        std::vector<uint32_t> cand = without(ch, pos - chunk, pos);
+        RunRes rr;
+        if (still_fails(cand, rr)) {
+          accept(ch, cand, rr);
+          progress = true;
+        }
+        pos -= 1;
+        if (pos > ch.size()) pos = ch.size();
+      }
+    }
+    // pass 3: simplify single choices: 0, small values, then a short bisection
+    for (size_t i = 0; i < ch.size() && budget; i++) {
+      if (ch[i] == 0) continue;
+      std::vector<uint32_t> cand = ch;
+      RunRes rr;
+      cand[i] = 0;
+      if (still_fails(cand, rr)) {
+        accept(ch, cand, rr);
+        progress = true;
+        continue;
+      }
+      bool done = false;
+      for (uint32_t v = 1; v <= 3 && v < ch[i] && !done; v++) {
+        cand = ch;
+        cand[i] = v;
+        if (still_fails(cand, rr)) {
+          accept(ch, cand, rr);
+          progress = done = true;
+        }
+      }
+      if (done) continue;
+      uint32_t lo = 3, hi = ch[i];
+      for (int step = 0; step < 10 && hi - lo > 1 && budget; step++) {
+        uint32_t mid = lo + (hi - lo) / 2;
+        cand = ch;
+        cand[i] = mid;
+        if (still_fails(cand, rr)) {
+          accept(ch, cand, rr);
+          hi = mid;
+          progress = true;
+        } else
+          lo = mid;
+      }
+    }
+  }
+}
+
 void load_known(const std::string &path) {
   FILE *f = fopen(path.c_str(), "r");
   if (!f) return;
@@ -465,7 +622,7 @@ int engine_main(int argc, char **argv, const Harness &h) {
   std::string replay, mode, known_path;
   bool isolate = h.always_isolate;
   long dump_index = -1;
-  bool want_digests = false;
+  bool want_digests = false, minimise = false;
   int mode_arg0 = argc;
   for (int i = 1; i < argc; i++) {
     std::string a = argv[i];
@@ -483,6 +640,8 @@ int engine_main(int argc, char **argv, const Harness &h) {
       dump_index = atol(argv[++i]);
     else if (a == "--digests")
       want_digests = true;
+    else if (a == "--minimise")
+      minimise = true;
     else if (a == "--case-timeout" && i + 1 < argc)
       g_case_timeout = atoi(argv[++i]);
     else if (a == "--mode" && i + 1 < argc) {
@@ -531,14 +690,70 @@ int engine_main(int argc, char **argv, const Harness &h) {
       printf("REPLAY FAIL property=%s mode=%s\n", g_prop.c_str(), mode_line.c_str());
       return 10;
     }
-    if (!read_case(replay, ch)) {
+    if (!read_case(replay, ch, &g_prelude)) {
       fprintf(stderr, "cannot read case file %s\n", replay.c_str());
       return 2;
     }
     signal(SIGALRM, on_alarm);
+    if (minimise) {
+      // a failure that needs earlier cases of its process: every candidate (earlier cases + case) runs in a fresh
+      // child. Drop the earlier cases that are not needed, then shrink the case, then the remaining earlier cases.
+      std::string found = g_out + "/found.case";
+      unlink(found.c_str());
+      RunRes r = run_forked(ch);
+      if (r.ok) {
+        printf("REPLAY PASS property=%s\n", g_prop.c_str());
+        if (h.teardown) h.teardown();
+        return 0;
+      }
+      std::string desc = g_case.desc;
+      uint64_t budget = h.shrink_budget / 2 + 50;
+      for (size_t i = 0; i < g_prelude.size() && budget;) {
+        std::vector<uint32_t> keep = g_prelude[i];
+        g_prelude.erase(g_prelude.begin() + (long)i);
+        budget--;
+        RunRes rr = run_forked(ch);
+        if (!rr.ok) {
+          r = rr;
+          desc = g_case.desc;
+        } else {
+          g_prelude.insert(g_prelude.begin() + (long)i, keep);
+          i++;
+        }
+      }
+      auto save = [&] { write_case(found, ch, r.symptom, r.detail, desc, &g_prelude); };
+      save();
+      shrink_choices(ch, r, desc, budget, true, [&](const std::vector<uint32_t> &c) { return run_forked(c); }, save);
+      while (!ch.empty() && ch.back() == 0) ch.pop_back();
+      for (size_t i = 0; i < g_prelude.size(); i++) {
+        std::vector<uint32_t> pc = g_prelude[i];
+        RunRes pr = r;
+        std::string pdesc = desc;
+        uint64_t b2 = std::min<uint64_t>(budget, 120);
+        budget -= b2;
+        shrink_choices(pc, pr, pdesc, b2, false,
+                       [&](const std::vector<uint32_t> &c) {
+                         std::vector<uint32_t> old = g_prelude[i];
+                         g_prelude[i] = c;
+                         RunRes rr = run_forked(ch);
+                         if (rr.ok) g_prelude[i] = old;
+                         return rr;
+                       },
+                       [&] {
+                         r = pr;
+                         desc = pdesc;
+                       });
+        while (!g_prelude[i].empty() && g_prelude[i].back() == 0) g_prelude[i].pop_back();
+      }
+      save();
+      printf("MINIMISED property=%s earlier_cases=%zu\n", g_prop.c_str(), g_prelude.size());
+      if (h.teardown) h.teardown();
+      return 10;
+    }
     alarm(g_case_timeout * 10);
     RunRes r = isolate ? run_forked(ch) : run_inproc(ch);
     alarm(0);
+    if (!g_prelude.empty()) printf("earlier cases of the same process replayed first: %zu\n", g_prelude.size());
     printf("case: %s\n", g_case.desc.c_str());
     printf("digest=%016llx\n", (unsigned long long)g_case.digest);
     for (auto &k : g_case.known) printf("known-finding-hit: %s\n", k.c_str());
@@ -601,6 +816,7 @@ int engine_main(int argc, char **argv, const Harness &h) {
       return r;
     };
     long case_index = -1;
+    std::deque<std::vector<uint32_t>> recent;  // the last cases that ran in this process (see found-history.case)
     FILE *digf = want_digests ? fopen((g_out + "/digests.bin").c_str(), "wb") : nullptr;
     bool ok = rc::check(std::string("property ") + g_prop, [&]() {
       std::vector<uint32_t> ch = *gen;
@@ -621,6 +837,10 @@ int engine_main(int argc, char **argv, const Harness &h) {
       }
       if (r.ok) {
         commit(g_case);
+        if (!isolate) {
+          recent.push_back(ch);
+          if (recent.size() > 16) recent.pop_front();
+        }
         if (++since_flush >= 2000) {
           since_flush = 0;
           write_stats();
@@ -635,126 +855,13 @@ int engine_main(int argc, char **argv, const Harness &h) {
       // consumed prefix matters and that 0 is the simplest choice)
       std::string desc = g_case.desc;
       write_case(found, ch, r.symptom, r.detail, desc);
+      // what ran before it in this process (only needed when the failure depends on process-wide state)
+      if (!isolate && !recent.empty()) {
+        std::vector<std::vector<uint32_t>> pre(recent.begin(), recent.end());
+        write_case(g_out + "/found-history.case", ch, r.symptom, r.detail, desc, &pre);
+      }
       uint64_t budget = h.shrink_budget;
-      std::vector<std::pair<uint32_t, uint32_t>> spans = g_spans;
-      auto still_fails = [&](const std::vector<uint32_t> &cand, RunRes &out) {
-        if (budget == 0) return false;
-        budget--;
-        RunRes rr = evaluate(cand);
-        if (rr.ok) return false;
-        out = rr;
-        desc = g_case.desc;
-        spans = g_spans;
-        return true;
-      };
-      auto accept = [&](std::vector<uint32_t> &cur_ch, std::vector<uint32_t> &cand, RunRes &rr) {
-        cur_ch.swap(cand);
-        r = rr;
-        write_case(found, cur_ch, r.symptom, r.detail, desc);
-      };
-      auto without = [](const std::vector<uint32_t> &v, size_t a, size_t b) {
-        std::vector<uint32_t> c(v.begin(), v.begin() + a);
-        if (b < v.size()) c.insert(c.end(), v.begin() + b, v.end());
-        return c;
-      };
-      // pass 0: shortest failing prefix (heuristic bisection)
-      {
-        RunRes rr;
-        size_t lo = 0, hi = ch.size();
-        while (lo < hi && budget) {
-          size_t mid = (lo + hi) / 2;
-          std::vector<uint32_t> cand(ch.begin(), ch.begin() + mid);
-          if (still_fails(cand, rr)) {
-            hi = mid;
-            accept(ch, cand, rr);
-          } else
-            lo = mid + 1;
-        }
-      }
-      bool progress = true;
-      int rounds = 0;
-      while (progress && budget && rounds++ < 12) {
-        progress = false;
-        // pass 1: delete whole spans, last first, outer before inner
-        // (spans are refreshed by every failing run)
-        {
-          uint32_t cf = UINT32_MAX, cs = UINT32_MAX;  // cursor: spans ordered after it are still to be tried
-          for (;;) {
-            std::vector<std::pair<uint32_t, uint32_t>> sp = spans;
-            std::sort(sp.begin(), sp.end(), [](auto &x, auto &y) {
-              return x.first != y.first ? x.first > y.first : x.second > y.second;
-            });
-            bool tried = false;
-            for (auto &q : sp) {
-              bool after = q.first < cf || (q.first == cf && q.second < cs);
-              if (!after || q.second > ch.size() || q.second <= q.first) continue;
-              if (!budget) break;
-              tried = true;
-              std::vector<uint32_t> cand = without(ch, q.first, q.second);
-              RunRes rr;
-              if (still_fails(cand, rr)) {
-                accept(ch, cand, rr);
-                progress = true;
-                cf = q.first;
-                cs = 0;  // everything starting here or later has been handled
-              } else {
-                cf = q.first;
-                cs = q.second;
-              }
-              break;  // re-read spans (they may have changed)
-            }
-            if (!tried) break;
-          }
-        }
-        // pass 2: delete small chunks
-        for (size_t chunk : {8u, 4u, 2u, 1u}) {
-          size_t pos = ch.size();
-          while (pos >= chunk && budget) {
-            std::vector<uint32_t> cand = without(ch, pos - chunk, pos);
-            RunRes rr;
-            if (still_fails(cand, rr)) {
-              accept(ch, cand, rr);
-              progress = true;
-            }
-            pos -= 1;
-            if (pos > ch.size()) pos = ch.size();
-          }
-        }
-        // pass 3: simplify single choices: 0, small values, then a short bisection
-        for (size_t i = 0; i < ch.size() && budget; i++) {
-          if (ch[i] == 0) continue;
-          std::vector<uint32_t> cand = ch;
-          RunRes rr;
-          cand[i] = 0;
-          if (still_fails(cand, rr)) {
-            accept(ch, cand, rr);
-            progress = true;
-            continue;
-          }
-          bool done = false;
-          for (uint32_t v = 1; v <= 3 && v < ch[i] && !done; v++) {
-            cand = ch;
-            cand[i] = v;
-            if (still_fails(cand, rr)) {
-              accept(ch, cand, rr);
-              progress = done = true;
-            }
-          }
-          if (done) continue;
-          uint32_t lo = 3, hi = ch[i];
-          for (int step = 0; step < 10 && hi - lo > 1 && budget; step++) {
-            uint32_t mid = lo + (hi - lo) / 2;
-            cand = ch;
-            cand[i] = mid;
-            if (still_fails(cand, rr)) {
-              accept(ch, cand, rr);
-              hi = mid;
-              progress = true;
-            } else
-              lo = mid;
-          }
-        }
-      }
+      shrink_choices(ch, r, desc, budget, true, evaluate, [&] { write_case(found, ch, r.symptom, r.detail, desc); });
       // drop trailing zeros (an exhausted source yields zeros anyway)
       while (!ch.empty() && ch.back() == 0) ch.pop_back();
       write_case(found, ch, r.symptom, r.detail, desc);
